@@ -38,7 +38,7 @@ CHECKS['C04'] = (
     'Trusts vlib/schemas_ja.py; all S/NP atoms carry triples.', '§4 C04')
 CHECKS['C14'] = (
     'purity/stability/gate/nb/unary-table monitors around the real rule functions; identical workloads evaluated in fresh interpreters under '
-    'different PYTHONHASHSEED values and compared by per-call digests',
+    'different PYTHONHASHSEED values (every other process in reverse order) and compared by per-call digests',
     'Arguments fingerprinted before/after, calls repeated, seen-rule gate and nb-independence compared with the unrestricted call, unary '
     'results compared with the table; 6 (quick) / 24 (thorough) hash seeds per input block; held-on-observed.',
     'Hash seeds and inputs are sampled; in-domain = one feature system per grammar.', '§4 C14')
@@ -95,7 +95,8 @@ CHECKS['C15'] = (
     'Batches x n-best, licensed and arbitrary trees, hostile XML-representable tokens.', 'Trusts vlib/codecs.py; "logic punctuation" = . , ( ) ! - and lone & / -.', '§5 C15')
 CHECKS['C18'] = (
     'deep object-graph fingerprint before/after every rendering + output equality against the same rendering of a pristine deep copy, over '
-    'random format sequences on the same objects',
+    'random format sequences on the same objects; pairs of fresh processes rendering the same results in opposite format orders, the '
+    'second with a shifted clock',
     'All CLI formats via to_string and the per-format functions, sequences of 2-6 renderings with repeats.', 'Fingerprint covers Tree/Token/Category objects.', '§5 C18')
 CHECKS['C19'] = (
     'no-exception + batch-isolation monitor over every CLI format (list read from depccg/argparse.py) for trees covering every label the rule '
